@@ -35,12 +35,12 @@ import (
 
 // HHdr names one header of the family (zero value = B1 with its own honest votes).
 type HHdr struct {
-	Blk    int    `json:"block"`                           // 0 = B1, 1 = its sibling B2
-	UV     int    `json:"votes_at_next_round_index"`       // 0: UconValidators.RoundIndex = the proposal's index ri; 1: ri+1 (re-vote)
-	Cred   int    `json:"credentials_of_other_index"`      // 1: the precommit credentials are those for the other of the two indexes
-	SigBlk int    `json:"signatures_over_sibling_hash"`    // 1: precommit signatures and aggregate are over the sibling block's hash
-	SigIdx int    `json:"signatures_over_other_index"`     // 1: … over the other of the two indexes
-	Sub    string `json:"precommit_list,omitempty"`        // "" every entitled member's, "one" = the first member's only, "none"
+	Blk    int    `json:"block"`                             // 0 = B1, 1 = its sibling B2
+	UV     int    `json:"votes_at_next_round_index"`         // 0: UconValidators.RoundIndex = the proposal's index ri; 1: ri+1 (re-vote)
+	Cred   int    `json:"credentials_of_other_index"`        // 1: the precommit credentials are those for the other of the two indexes
+	SigBlk int    `json:"signatures_over_sibling_hash"`      // 1: precommit signatures and aggregate are over the sibling block's hash
+	SigIdx int    `json:"signatures_over_other_index"`       // 1: … over the other of the two indexes
+	Sub    string `json:"precommit_list,omitempty"`          // "" every entitled member's, "one" = the first member's only, "none"
 	CBlk   int    `json:"cert_signatures_over_sibling_hash"` // certificate rounds: same for the certificate votes
 	CIdx   int    `json:"cert_signatures_over_other_index"`
 	CSub   string `json:"certificate_list,omitempty"`
@@ -51,7 +51,9 @@ func (h HHdr) key() string {
 }
 
 // ownVotes: nothing but honest votes for this very header (possibly fewer than all).
-func (h HHdr) ownVotes() bool { return h.Cred == 0 && h.SigBlk == 0 && h.SigIdx == 0 && h.CBlk == 0 && h.CIdx == 0 }
+func (h HHdr) ownVotes() bool {
+	return h.Cred == 0 && h.SigBlk == 0 && h.SigIdx == 0 && h.CBlk == 0 && h.CIdx == 0
+}
 
 // honest: what an honest committee produces.
 func (h HHdr) honest() bool { return h.ownVotes() && h.Sub == "" && h.CSub == "" }
@@ -98,6 +100,30 @@ func (h HHdr) class(cert bool) string {
 	return s
 }
 
+// parts: the ways in which the header's votes are not honest votes for this header.
+func (h HHdr) parts() []string {
+	var ps []string
+	add := func(kind string, cred, blk, idx int, sub string) {
+		if cred == 1 {
+			ps = append(ps, kind+" credentials of another round index")
+		}
+		if blk == 1 {
+			ps = append(ps, kind+" signatures and aggregate over the hash of another block (the sibling's)")
+		}
+		if idx == 1 {
+			ps = append(ps, kind+" signatures and aggregate over another round index")
+		}
+		if sub != "" {
+			ps = append(ps, "fewer "+kind+"s than the quorum under the same header hash")
+		}
+	}
+	add("precommit", h.Cred, h.SigBlk, h.SigIdx, h.Sub)
+	add("certificate vote", 0, h.CBlk, h.CIdx, h.CSub)
+	return ps
+}
+
+func (h HHdr) deviations() int { return len(h.parts()) }
+
 // HOp is one verification.
 type HOp struct {
 	H     HHdr   `json:"header"`
@@ -122,9 +148,9 @@ type hist struct {
 	blocks  [2]*types.Block
 	entries map[string]Entry
 	mu      sync.Mutex
-	built   map[string]*Forged  // HHdr key -> header + ground truth
-	oracle  map[string]Verdict  // HHdr key -> verdict
-	fresh   sync.Map            // HHdr key | entry -> pathRes on a fresh instance
+	built   map[string]*Forged // HHdr key -> header + ground truth
+	oracle  map[string]Verdict // HHdr key -> verdict
+	fresh   sync.Map           // HHdr key | entry -> pathRes on a fresh instance
 }
 
 func (x *ctx) newHist() (*hist, error) {
@@ -318,15 +344,21 @@ func (hs *hist) alphabet() []HHdr {
 // core: the sub-family used at the larger depth.
 func (hs *hist) coreAlphabet() []HHdr {
 	if !hs.x.c.IsCert {
-		return []HHdr{{}, {Blk: 1}, {Blk: 1, SigBlk: 1}, {Blk: 1, UV: 1, SigIdx: 1}, {Blk: 1, Sub: "none"}, {UV: 1}}
+		if hs.x.r.Quick() {
+			return []HHdr{{}, {Blk: 1}, {Blk: 1, SigBlk: 1}, {Blk: 1, Sub: "none"}}
+		}
+		return []HHdr{{}, {Blk: 1}, {Blk: 1, SigBlk: 1}, {Blk: 1, UV: 1, SigIdx: 1}, {Blk: 1, Sub: "none"}}
 	}
-	return []HHdr{{}, {Blk: 1}, {Blk: 1, SigBlk: 1, CBlk: 1}, {Blk: 1, CBlk: 1}, {Blk: 1, CSub: "none"}, {Blk: 1, SigBlk: 1}}
+	if hs.x.r.Quick() {
+		return []HHdr{{}, {Blk: 1}, {Blk: 1, SigBlk: 1, CBlk: 1}, {Blk: 1, CSub: "none"}}
+	}
+	return []HHdr{{}, {Blk: 1}, {Blk: 1, SigBlk: 1, CBlk: 1}, {Blk: 1, CBlk: 1}, {Blk: 1, CSub: "none"}}
 }
 
 func (hs *hist) entryNames(core bool) []string {
 	var out []string
 	for _, e := range hs.x.c.entries(false) {
-		if core && e.Name != "VerifyHeader" && e.Name != "VerifySideChainHeader" && e.Name != "VerifyAcHeader" {
+		if core && e.Name != "VerifyHeader" && ((!hs.x.c.IsCert && e.Name != "VerifySideChainHeader") || (hs.x.c.IsCert && e.Name != "VerifyAcHeader")) {
 			continue
 		}
 		out = append(out, e.Name)
@@ -407,6 +439,9 @@ func (hs *hist) checkSeq(ops []HOp) {
 	}
 	atomic.AddInt64(&r.Executions, 1)
 	atomic.AddInt64(&r.Transitions, int64(len(res)))
+	if len(ops) > 1 {
+		r.Distinct("hist/" + c.Name + "/" + fmt.Sprint(ops))
+	}
 	cert := c.IsCert
 	for i, p := range res {
 		op := ops[i]
@@ -415,7 +450,7 @@ func (hs *hist) checkSeq(ops []HOp) {
 		}
 		if p.Panic != "" {
 			r.Count("history: verifier_panicked", 1)
-			x.offerRaw("verifier panics with history: "+panicSite(p.Where)+": "+normErr(p.Panic), "", nil, fmt.Sprintf("%02d", len(ops)),
+			x.offerRaw("", "verifier panics with history: "+panicSite(p.Where)+": "+normErr(p.Panic), "", nil, fmt.Sprintf("%02d", len(ops)),
 				mc.Violation{Config: c.Name, Input: hs.spec(ops[:i+1]), Detail: hs.describeOps(ops[:i+1], res)})
 			return
 		}
@@ -472,27 +507,39 @@ func (hs *hist) checkSeq(ops []HOp) {
 			return
 		}
 		var earlier []string
+		dev := 0
 		for _, e := range ops[:i] {
 			earlier = append(earlier, rel(e.H, op.H)+" with "+e.H.class(cert))
+			dev += e.H.deviations()
 		}
-		rank := fmt.Sprintf("%02d|%s", len(ops), fmt.Sprint(ops))
+		// simplest witness: shortest history, then the most honest one
+		eps := map[string]bool{}
+		for _, e := range ops[:i+1] {
+			eps[e.Entry] = true
+		}
+		rank := fmt.Sprintf("%02d|%02d|%02d|%s", len(ops), dev, len(eps), fmt.Sprint(ops))
 		detail := fmt.Sprintf("one Server instance, in this order:\n%s\nthe same header through the same entry point on an instance that verified nothing else: accept=%v %s\n%s",
 			hs.describeOps(ops[:i+1], res), fr.Accept, fr.Err, x.context())
 		v := mc.Violation{Config: c.Name, Input: hs.spec(ops[:i+1]), Detail: detail}
+		parts := op.H.parts()
 		switch {
 		case p.Accept && fr.Accept:
 			r.Count("history: VIOLATING_CASES_accepted_without_protocol_quorum", 1)
-			x.offerRaw("accepted (any verifier history): "+op.H.class(cert), "", nil, rank, v)
+			head := "accepted (fresh verifier instance as well): header with "
+			x.offerRaw("", head+strings.Join(parts, " + "), head, parts, rank, v)
 		case p.Accept:
 			r.Count("history: VIOLATING_CASES_accepted_without_protocol_quorum", 1)
 			r.Count("history: VIOLATING_CASES_accepted_only_with_history", 1)
-			x.offerRaw("accepted only because of what the same verifier instance verified before ("+strings.Join(earlier, "; then ")+"): header with "+op.H.class(cert), "", nil, rank, v)
+			r.Count("history: accepted_only_after: "+strings.Join(earlier, "; then "), 1)
+			head := "accepted only because of what the same verifier instance verified before (a fresh instance rejects): header with "
+			x.offerRaw("", head+strings.Join(parts, " + "), head, parts, rank, v)
 		case op.H.honest() && fr.Accept:
 			r.Count("history: VIOLATING_CASES_honest_header_rejected_only_with_history", 1)
-			x.offerRaw("rejected honest header only because of what the same verifier instance verified before ("+strings.Join(earlier, "; then ")+")", "", nil, rank, v)
+			r.Count("history: rejected_only_after: "+strings.Join(earlier, "; then "), 1)
+			x.offerRaw("", "rejected honest header only because of what the same verifier instance verified before (a fresh instance accepts)"+certTag(c), "", nil, rank, v)
 		case op.H.honest():
 			r.Count("history: VIOLATING_CASES_honest_header_rejected", 1)
-			x.offerRaw("rejected honest header (any verifier history) ["+op.Entry+"]: "+op.H.class(cert), "", nil, rank, v)
+			x.offerRaw(honestGroup(c), "rejected honest header"+certTag(c)+" ["+op.Entry+"]: "+op.H.class(cert), "", nil, "02|"+rank, v)
 		default:
 			r.Count("history: verifier_stricter_on_non_honest_header", 1)
 		}
@@ -516,8 +563,10 @@ func (hs *hist) minimiseSeq(ops []HOp, wrong bool) []HOp {
 }
 
 // exploreHist: every sequence of length 1 and 2 over (family × entry points) — the last header taken from the
-// sibling's half of the family, the halves being mirror images — and every sequence of length 3 (thorough: 4 over
-// two entry points) over the core sub-family.
+// sibling's half of the family, the halves being mirror images — and every sequence of length 3 (thorough: 4)
+// over the core sub-family.  Quick tier, length 2: the two entry points are the same one or one of them is
+// VerifyHeader (state kept by one entry point / state shared by all of them), and a pair of headers the oracle
+// both rejects goes through one entry point twice; thorough: the full product.
 func (x *ctx) exploreHist() {
 	r := x.r
 	hs, err := x.newHist()
@@ -548,13 +597,32 @@ func (x *ctx) exploreHist() {
 		}
 		r.Distinct("hist/" + x.c.Name + "/" + d.key())
 	}
+	r.Count("history: entry_points", int64(len(ents)))
 	// length 1 (= the fresh verdicts)
 	r.ForEach(len(first), func(w, i int) { hs.checkSeq([]HOp{first[i]}) })
 	// length 2
-	r.Enum([]int{len(last), len(first)}, func(w int, idx []int) {
-		hs.checkSeq([]HOp{first[idx[1]], last[idx[0]]})
-	})
-	r.Count("history: sequences_of_length_2", int64(len(first)*len(last)))
+	var pairs [][2]HOp
+	acc := func(d HHdr) bool { o := hs.verdict(d); return o.Accept || (o.CertRound && o.CertOK) }
+	for _, a := range first {
+		for _, b := range last {
+			if r.Quick() {
+				if a.Entry != b.Entry && a.Entry != "VerifyHeader" && b.Entry != "VerifyHeader" {
+					continue
+				}
+				if !acc(a.H) && !acc(b.H) {
+					// two headers every entry point must reject: the same header twice (or its mirror image on the other block)
+					m := a.H
+					m.Blk = b.H.Blk
+					if a.Entry != b.Entry || m != b.H {
+						continue
+					}
+				}
+			}
+			pairs = append(pairs, [2]HOp{a, b})
+		}
+	}
+	r.ForEach(len(pairs), func(w, i int) { hs.checkSeq(pairs[i][:]) })
+	r.Count("history: sequences_of_length_2", int64(len(pairs)))
 	// length 3 over the core sub-family
 	var core []HOp
 	for _, d := range hs.coreAlphabet() {
